@@ -104,6 +104,12 @@ class Operation(ElementBase):
         """Replace an edge between given corners with a Projected one
         or add geometry to an already projected edge"""
         # decide where the required edge sits
+        if not (0 <= corner_1 <= 7 and 0 <= corner_2 <= 7):
+            raise EdgeCreationError(
+                "Unable to project edge: corners must be block-local indexes (0...7)",
+                f"Given corners: {corner_1}, {corner_2}",
+            )
+
         loc = edge_map[corner_1][corner_2]
         corner = loc.start_corner
 
